@@ -2034,7 +2034,7 @@ Proof.
   destruct (locate _ _ _ _ W I B ADJ) as (f0 & f1 & rest & pre & els & bl & post & S & R & P1 & P2).
   pose proof (buf_offset_nonneg (me_fr t) fso (wf_fso_nonneg _ _ _ _ W I)) as BN.
   unfold me_fr, bios_fr in *. rewrite S, slot_1, ?slot_0 in *.
-  eexists. eapply tm_ok; eauto. lia.
+  eexists. eapply tm_ok; eauto; lia.
 Qed.
 
 Lemma c12_panics_iff img t pol mb fp fso : good_img img ->
